@@ -52,6 +52,7 @@ type Exec struct {
 	PermuteMaps bool
 	NoArrMaps  bool
 	GlobalInit map[string]func(ex *Exec, st *State) Value // models of package-level data of packages whose init is not run
+	Flags      map[string]bool
 	Decoded    Value                                       // value registered by verifrt.TOMLBytes for the decoder stubs
 	Params     map[string]int
 	Known      []KnownPred
@@ -403,6 +404,12 @@ func (ex *Exec) CallFn(st *State, site ssa.Instruction, fn *ssa.Function, args [
 		return nil
 	}
 	name := fnName(fn)
+	for fl := range ex.Flags {
+		if stub, ok := ex.Stubs["flag:"+fl+":"+name]; ok {
+			ex.StubsUsed["summary("+fl+") "+name]++
+			return stub(ex, st, site, fn, args)
+		}
+	}
 	if stub, ok := ex.Stubs[name]; ok {
 		ex.StubsUsed[name]++
 		return stub(ex, st, site, fn, args)
